@@ -31,6 +31,9 @@ for (_m, q), f in repo.fns.items():
     fn_skels.setdefault(q, skeleton(f.node))
 out = {k: sorted(v) for k, v in sorted(refs.items())}
 out["__functions__"] = fn_skels
+# positional parameter order of every public function (rule G22: the order is part of the interface - positional callers bind by position)
+out["__signatures__"] = {q: [a.arg for a in f.node.args.posonlyargs + f.node.args.args] for (_m, q), f in sorted(repo.fns.items())
+                         if not any(part.startswith("_") and not part.startswith("__") for part in q.split("."))}
 with open(os.path.join(ROOT, "rules", "reference_shapes.json"), "w") as f:
     json.dump(out, f, indent=0, sort_keys=True)
 print("reference shapes for %d obligation keys" % len(out))
